@@ -656,6 +656,7 @@ def plan_faults(rng, calls, tier, small_all_k):
         ks = sorted(k for k in ks if 0 <= k < L)
         deep = set(rng.sample(ks, min(len(ks), 3 if tier == "quick" else 12)))
         deep |= {k for k in (1, L // 2 - 1, L // 2 + 1, L - 1) if k in ks}
+        deep |= {m for m in range(PAGE, L, PAGE)}
         for k in ks:
             plans.append(dict(kind="short", short=(c["n"], k), wlen=L, expand=(k in deep)))
             plans.append(dict(kind="short+crash", short=(c["n"], k), wlen=L, crash_after=c["n"]))
